@@ -1,6 +1,7 @@
 (* C14/Property.v — property theorems only. *)
 From Coq Require Import String Ascii List Bool.
-From Verif Require Import Base.Str Base.Percent Base.Base64 Base.Html Base.Query C14.Model C14.Spec C14.Proofs.
+From Verif Require Import Base.Str Base.Py Base.Percent Base.Base64 Base.Html Base.Query C14.Model C14.Spec C14.Proofs C14.Source.
+From VerifGen Require Import C14Src.
 Import ListNotations.
 
 (* ---- the codecs, for every byte string *)
@@ -185,3 +186,9 @@ Print Assumptions c14_artifact_refuted.
 Theorem c14_artifact_spec_reflect : forall x dest, art_spec_b x dest = true <-> art_spec x dest.
 Proof. exact art_spec_b_iff. Qed.
 Print Assumptions c14_artifact_spec_reflect.
+
+(* tie to the source TEXT: pack.add_query as translated from /repo's current source on this run
+   (coq/gen/C14Src.v, harness/py2coq.py) computes the model's add_query for every destination and query *)
+Theorem c14_source_add_query : forall loc q, src_add_query (PStr loc) (PStr q) = PStr (add_query loc q).
+Proof. exact src_add_query_is_model. Qed.
+Print Assumptions c14_source_add_query.
